@@ -502,7 +502,17 @@ def judge_cfg_validate(a, impl):
     return None
 
 
-JUDGES = {"fault.trk.http_announce": judge_fault, "fault.trk.udp": judge_fault, "fault.trk.http_scrape": judge_fault, "cfg.validate": judge_cfg_validate, "wedge.detected": judge_wedge, "vi.check": judge_vi_check, "vi.handle": judge_vi_handle, "trk.http_announce": judge_trk, "trk.udp": judge_trk, "trk.http_scrape": judge_trk}
+def judge_crash(a, impl):
+    """the harness process died while executing the pending case (a panic outside the harness's recover, e.g. on a
+    goroutine started by the code under test): always a failure"""
+    try:
+        pend = bytes.fromhex(a.get("pending", "")).decode(errors="replace")
+    except ValueError:
+        pend = a.get("pending", "")
+    return "the implementation brought the process down (" + impl[:200] + ") while executing: " + pend[:300]
+
+
+JUDGES = {"crash.detected": judge_crash, "fault.trk.http_announce": judge_fault, "fault.trk.udp": judge_fault, "fault.trk.http_scrape": judge_fault, "cfg.validate": judge_cfg_validate, "wedge.detected": judge_wedge, "vi.check": judge_vi_check, "vi.handle": judge_vi_handle, "trk.http_announce": judge_trk, "trk.udp": judge_trk, "trk.http_scrape": judge_trk}
 
 
 def matches(finding, failing):
